@@ -22,7 +22,12 @@ type pubRec struct {
 	raw   *protocol.PublishDiagnosticsParams
 }
 
+// cfgByGid maps the goroutine running refreshConfiguration to the stub it talks to, so that the
+// key-less cfg.done hook can be attributed to the right server when cases run in parallel.
+var cfgByGid sync.Map
+
 type stubClient struct {
+	cfgDone int
 	mu      sync.Mutex
 	pubs    []pubRec
 	seq     int
@@ -69,6 +74,7 @@ func (c *stubClient) ApplyEdit(context.Context, *protocol.ApplyWorkspaceEditPara
 	return false, nil
 }
 func (c *stubClient) Configuration(context.Context, *protocol.ConfigurationParams) ([]interface{}, error) {
+	cfgByGid.Store(goid(), c) // the cfg.done hook of this goroutine belongs to this client
 	c.mu.Lock()
 	c.cfgReqs++
 	f := c.config
@@ -109,7 +115,6 @@ var (
 	routerMu   sync.RWMutex
 	routes     = map[string]hookFunc{}
 	routerOnce sync.Once
-	cfgRoute   hookFunc
 )
 
 func goid() int64 {
@@ -128,11 +133,19 @@ func goid() int64 {
 func installRouter() {
 	routerOnce.Do(func() {
 		verifhook.Set(func(point, key string) {
+			if key == "" {
+				if point == "cfg.done" {
+					if c, ok := cfgByGid.LoadAndDelete(goid()); ok {
+						sc := c.(*stubClient)
+						sc.mu.Lock()
+						sc.cfgDone++
+						sc.mu.Unlock()
+					}
+				}
+				return
+			}
 			routerMu.RLock()
 			f := routes[key]
-			if key == "" {
-				f = cfgRoute
-			}
 			routerMu.RUnlock()
 			if f != nil {
 				f(point, key, goid())
